@@ -52,6 +52,10 @@ def ref_entropy(X, k):
             raise Degenerate("singular value near the guard")
         if len(S) > rank and S[rank] > GUARD / 10:
             raise Degenerate("numerically zero singular value near the guard")
+        if S[rank - 1] / S[0] < 1e-4:
+            # float-level limit, not a guard: the rounding of an SVD is absolute (~1e-16 sigma_0), so log(sigma_l/sigma_0) of a
+            # transformed copy can only be reproduced to ~1e-16 / ratio
+            raise Degenerate("ill-conditioned neighbourhood")
         inside = 0
         for j in nb:
             z = X[j] - X[i]
@@ -212,7 +216,8 @@ def run(chk):
         "scipy cdist / gamma are compared, not modelled"]
     chk.assumptions += [
         "tie-free samples, N > k+1, d in 1..5, k in 1..8, Euclidean metric; scale factors in [0.1, 10]; shifts up to 100x the data scale",
-        "generic samples: no `> 1e-12` guard within a factor 10 of flipping and no ellipsoid test within 1e-6 of its boundary "
+        "generic samples: no `> 1e-12` guard within a factor 10 of flipping, no ellipsoid test within 1e-6 of its boundary, no neighbourhood "
+        "with sigma_min/sigma_0 < 1e-4 (float conditioning), no near-tied neighbour distances "
         "(a neighbourhood with k < d has exact zero singular values; shifts beyond ~1e4 x the data scale lift their rounding noise "
         "over the absolute guard -- outside the property, see claims)",
         "theorems: the SVD data are hypotheses for d >= 2 (unchanged by isometries/row order, squares homogeneous of degree 2, guards stable); none for d = 1"]
@@ -239,6 +244,7 @@ def run(chk):
             svl, insl, nbl = oracle_from_spy(P, S_, k, spy.rec)
         except Degenerate as e:
             chk.count("grid.skipped_nongeneric")
+            chk.count(f"skipped.{e}")
             return None
         except ValueError as e:
             svl, insl, nbl = [[] for _ in range(N)], [0] * N, [[] for _ in range(N)]
@@ -402,8 +408,9 @@ def run(chk):
         X = float_sample(N, d)
         try:
             ref = ref_entropy(X, k)
-        except Degenerate:
+        except Degenerate as e:
             chk.count("float.skipped_nongeneric")
+            chk.count(f"skipped.{e}")
             continue
         t += 1
         h = H(X, k)
@@ -431,8 +438,9 @@ def run(chk):
         for what, Xt, delta, extra in laws:
             try:
                 ref_entropy(Xt, k)             # genericity of the transformed sample (guards, ellipsoid boundary, near-ties)
-            except Degenerate:
+            except Degenerate as e:
                 chk.count("laws.skipped_nongeneric_image")
+                chk.count(f"skipped.{e}")
                 continue
             ht = H(Xt, k)
             chk.count("laws.checked")
@@ -441,6 +449,9 @@ def run(chk):
                 report(f"{what} violated: H(transformed) - H(X) = {ht - h}, required {delta} (N={N}, d={d}, k={k})",
                        {**base, **extra, "transformed": Xt.tolist(), "returned_transformed": ht})
                 break
+        h_again = H(X, k)                       # the same arguments after other calls: the estimate has no memory
+        if not abs(h_again - h) <= TOL:
+            report(f"geometric_knn_entropy returned {h} and later {h_again} for the same arguments (N={N}, d={d}, k={k})", base)
 
     # MI / CMI as signed sums on float samples, through the estimator functions and the dispatcher
     n_sum = 24 if quick else 500
@@ -454,38 +465,53 @@ def run(chk):
         W = float_sample(N, dx + dy + dz)
         Xf, Yf, Zf = W[:, :dx], W[:, dx:dx + dy], W[:, dx + dy:]
         via = str(rng.choice(["direct", "dispatcher", "default-k"]))
-        try:
+
+        def signed_sum(kk):
             if cond:
-                keff = k
-                raw = (ref_entropy(np.hstack((Xf, Zf)), k) + ref_entropy(np.hstack((Yf, Zf)), k) - ref_entropy(W, k) - ref_entropy(Zf, k))
-            else:
-                keff = k if via == "direct" else 1
-                if not N > keff + 1:
-                    continue
-                raw = ref_entropy(Xf, keff) + ref_entropy(Yf, keff) - ref_entropy(W, keff)
+                return (ref_entropy(np.hstack((Xf, Zf)), kk) + ref_entropy(np.hstack((Yf, Zf)), kk) - ref_entropy(W, kk)
+                        - ref_entropy(Zf, kk))
+            return ref_entropy(Xf, kk) + ref_entropy(Yf, kk) - ref_entropy(W, kk)
+
+        def call(kk):
+            if cond:
+                return float(geometric_knn_conditional_mutual_information(Xf, Yf, Zf, metric="euclidean", k=kk) if via != "dispatcher" else
+                             conditional_mutual_information(Xf, Yf, Zf, method="geometric_knn", metric="euclidean", k=kk))
+            return float(geometric_knn_mutual_information(Xf, Yf, metric="euclidean", k=kk) if via == "direct" else
+                         conditional_mutual_information(Xf, Yf, None, method="geometric_knn", k=1) if via == "dispatcher" else
+                         geometric_knn_conditional_mutual_information(Xf, Yf, None))
+        k_honoured = cond or via == "direct"       # Z=None through the conditional function: default k (known finding K1 of C09)
+        floor = (not cond) or via == "dispatcher"
+        # the SAME sample is evaluated for k, then for another k2, then for k again (a scan over k, as when k is being chosen):
+        # every call must return the signed sum for ITS k, whatever was evaluated before
+        ks = [k if k_honoured else 1]
+        if k_honoured:
+            others = [q for q in range(1, 9) if q != k and N > q + 1]
+            if others:
+                ks += [int(rng.choice(others)), k]
+        if not N > ks[0] + 1:
+            continue
+        try:
+            raws = {kk: signed_sum(kk) for kk in set(ks)}
         except Degenerate:
             chk.count("float.skipped_nongeneric")
             continue
         t += 1
-        if cond:
-            v = (geometric_knn_conditional_mutual_information(Xf, Yf, Zf, metric="euclidean", k=k) if via != "dispatcher" else
-                 conditional_mutual_information(Xf, Yf, Zf, method="geometric_knn", metric="euclidean", k=k))
-            floor = via == "dispatcher"
-        else:
-            v = (geometric_knn_mutual_information(Xf, Yf, metric="euclidean", k=k) if via == "direct" else
-                 conditional_mutual_information(Xf, Yf, None, method="geometric_knn", k=1) if via == "dispatcher" else
-                 geometric_knn_conditional_mutual_information(Xf, Yf, None))
-            floor = True
-        v = float(v)
-        expect = max(0.0, raw) if floor else raw
-        chk.case(key=("fsum", W.tobytes(), k, cond, via), nontrivial=True)
         chk.count("float.cmi" if cond else "float.mi")
-        chk.count("float.sum.floored_to_0" if floor and raw <= 0 else "float.sum.not_floored")
-        if not math.isfinite(v) or abs(v - expect) > TOL:
-            report(f"geometric {'conditional ' if cond else ''}mutual information (via {via}, k={keff}, N={N}) returned {v}; the documented signed "
-                   f"sum of independently evaluated entropies is {raw}" + (" (floored at 0)" if floor else ""),
-                   {"k": keff, "via": via, "X": Xf.tolist(), "Y": Yf.tolist(), "Z": Zf.tolist() if cond else None, "returned": v,
-                    "signed_sum": raw, "floored": floor})
+        chk.count(f"float.sum.via.{via}")
+        for step, kk in enumerate(ks):
+            v = call(kk)
+            raw = raws[kk]
+            expect = max(0.0, raw) if floor else raw
+            chk.case(key=("fsum", W.tobytes(), kk, step, cond, via), nontrivial=True)
+            chk.count("float.sum.calls")
+            chk.count("float.sum.floored_to_0" if floor and raw <= 0 else "float.sum.not_floored")
+            if not math.isfinite(v) or abs(v - expect) > TOL:
+                report(f"geometric {'conditional ' if cond else ''}mutual information (via {via}, k={kk}, N={N}, call {step + 1} of the k-scan "
+                       f"{ks} on one sample) returned {v}; the documented signed sum of independently evaluated entropies is {raw}"
+                       + (" (floored at 0)" if floor else ""),
+                       {"k_sequence": ks, "failing_call": step, "via": via, "X": Xf.tolist(), "Y": Yf.tolist(),
+                        "Z": Zf.tolist() if cond else None, "returned": v, "signed_sum": raw, "floored": floor})
+                break
 
     chk.rule = ("Grid samples (integer range 120 and dyadic grids 2^-8..2^-18, isotropic and anisotropic, tie-free by exact test), N k+2..40, "
                 "d 1..5, k 1..8: the implementation runs with a spy on numpy.linalg.svd; the recorded singular values (after a numeric check) "
@@ -493,8 +519,9 @@ def run(chk):
                 "must lie within 1e-8 of the verified interval enclosure of the model; each base sample is also translated by an integer "
                 "vector, mapped by a signed coordinate permutation, scaled by c/e (c odd <= 7, e a power of two) and row-permuted, with the "
                 "law checked on the implementation and the model re-evaluated; neighbour sets and radii recovered from the spy are compared "
-                "exactly; d = 1 cases are additionally evaluated with NO oracle. MI (floored) / CMI signed sums likewise on grids, via the "
+                "exactly, the inside-counts against an exact rational ellipsoid test; d = 1 and d = 2 cases are additionally evaluated with NO SVD data. MI (floored) / CMI signed sums likewise on grids, via the "
                 "estimator functions and the dispatcher. Arbitrary affine-mixed Gaussian floats (scales 0.1..10): the entropy against the "
                 "explicit-loop evaluation of the published formula, the four laws with Haar orthogonal maps, shifts up to 100x the data "
-                "scale, a in [0.1, 10], and the MI/CMI signed sums incl. the Z=None default-k path; all at 1e-8. Non-generic samples "
+                "scale, a in [0.1, 10], and the MI/CMI signed sums incl. the Z=None default-k path, each sample evaluated for k, another k, and k "
+                "again in sequence (every call must return the signed sum for its own k); all at 1e-8. Non-generic samples "
                 "(guards / ellipsoid boundary / near-ties within rounding) are regenerated and counted.")
